@@ -62,10 +62,13 @@ Definition Chtimes (atime mtime : Z) : Z * Z := (atime, mtime).
    os.Chtimes(tmpFilePath, time.Now(), fileInfo.ModTime()) *)
 Definition compressedFileMtime (now origMtime : Z) : Z := snd (Chtimes now origMtime).
 
-(* openFSFile when a compressed sibling already exists on disk (stat mtime sibMtime): it is re-created only when the
-   original is at least one second NEWER (fileInfoOriginal.ModTime().Sub(fileInfo.ModTime()) >= time.Second);
-   otherwise the sibling is served as it is, with ITS modification time as ff.lastModified *)
-Definition siblingStale (origMtime sibMtime : Z) : bool := origMtime - sibMtime >=? 1.
+(* openFSFile when a compressed sibling already exists on disk (stat mtime sibMtime): it is re-created when its
+   modification time differs from the original's by a second or more in EITHER direction
+   (d := fileInfoOriginal.ModTime().Sub(fileInfo.ModTime()); d >= time.Second || d <= -time.Second); otherwise the
+   sibling is served as it is, with ITS modification time as ff.lastModified.  Times are whole seconds here: the
+   sub-second tolerance of the code is below the model's resolution. *)
+Definition siblingStale (origMtime sibMtime : Z) : bool :=
+  let d := origMtime - sibMtime in (d >=? 1) || (d <=? -1).
 Definition compressedVariantMtime (now origMtime : Z) (sibling : option Z) : Z :=
   match sibling with
   | Some sm => if siblingStale origMtime sm then compressedFileMtime now origMtime else sm
